@@ -245,6 +245,28 @@ pub fn call_templates() -> Vec<Vec<Stmt>> {
             Stmt::Expr(Expr::Array(vec![call("even", vec![Expr::Int(depth)]), call("even", vec![Expr::Int(depth + 1)])])),
         ]);
     }
+    // evaluation order of arguments: each argument expression prints when it is evaluated
+    {
+        let spoor = Stmt::Expr(Expr::Func { name: "spoor".into(), params: vec!["n".into()], body: vec![
+            Stmt::Expr(call("print", vec![Expr::Str("arg {}".into()), id("n")])),
+            Stmt::Expr(Expr::Assign(b(id("teller")), b(infix("+", infix("*", id("teller"), Expr::Int(10)), id("n"))))),
+            Stmt::Expr(id("n")),
+        ] });
+        let drie = Stmt::Expr(Expr::Func { name: "drie".into(), params: vec!["a".into(), "b".into(), "c".into()], body: vec![
+            Stmt::Expr(Expr::Array(vec![id("a"), id("b"), id("c")])),
+        ] });
+        let s = |k: i64| call("spoor", vec![Expr::Int(k)]);
+        for ctx in 0..5 {
+            let use_ = match ctx {
+                0 => call("print", vec![Expr::Str("{} {} {}".into()), s(1), s(2), s(3)]),
+                1 => call("drie", vec![s(1), s(2), s(3)]),
+                2 => Expr::Array(vec![s(1), s(2), s(3)]),
+                3 => infix("-", infix("-", s(1), s(2)), s(3)),
+                _ => call("lengte", vec![Expr::Array(vec![call("string", vec![s(4)]), call("type", vec![s(5)])])]),
+            };
+            out.push(vec![Stmt::Let("teller".into(), Expr::Int(0)), spoor.clone(), drie.clone(), Stmt::Expr(use_), Stmt::Expr(id("teller"))]);
+        }
+    }
     out.push(vec![
         // fib: two live activations of the same function with different arguments
         Stmt::Expr(Expr::Func { name: "fib".into(), params: vec!["n".into()], body: vec![
